@@ -19,6 +19,11 @@ KNOWN = os.path.join(VERIF, 'known_findings.json')
 
 EXIT_OK, EXIT_VIOLATION, EXIT_UNDECIDED, EXIT_ERROR = 0, 1, 2, 3
 
+# runs against a scratch copy of the repository (PYVC_REPO set by tools/mut.py, seedrun.sh, seed_matrix.py) must
+# not overwrite the evidence / replays / baseline of the real tree
+SCRATCH = os.path.realpath(extract.REPO) != '/repo'
+SCRATCH_DIR = '/tmp/pyvc-scratch'
+
 SEMANTICS_ASSUMPTIONS = [
     'pyvc (home-made VC generator) is part of the trusted base; kept honest by the per-path CPython cross-check',
     'Python semantics: evaluation order, truthiness, short-circuit as in the language reference; no operator '
@@ -104,7 +109,7 @@ def load_json(path, default):
 
 
 def write_replay(prop, ob, info):
-    d = os.path.join(VERIF, 'replays')
+    d = os.path.join(VERIF, 'replays') if not SCRATCH else os.path.join(SCRATCH_DIR, 'replays')
     os.makedirs(d, exist_ok=True)
     safe = re.sub(r'[^A-Za-z0-9_.#@()-]+', '_', ob.name)[:150]
     path = os.path.join(d, f'{prop}-{safe}.json')
@@ -141,6 +146,9 @@ def run_property(prop, tier='quick', update_baseline=False, only=None, verbose=F
             all_obs.append(ob)
     timeout_ms = solve.Z3_TIMEOUT_MS * (3 if tier == 'thorough' else 1)
     solve.solve_all(all_obs, timeout_ms=timeout_ms)
+    second = None
+    if tier == 'thorough':
+        second = solve.second_opinion(all_obs)
     # extra lemmas / bounded stand-ins provided by the sidecar
     extras = {}
     if hasattr(sidecar, 'extra_checks'):
@@ -262,6 +270,8 @@ def run_property(prop, tier='quick', update_baseline=False, only=None, verbose=F
         errors.append('zero obligations generated')
     for m, q, why in bad_identity:
         errors.append(f'extraction identity: {m}.{q}: {why}')
+    if second and second['disagree']:
+        errors.append(f'solver disagreement (z3 unsat, cvc5 sat) on {second["disagree"][:3]}')
     for name, diffs in cross_fail:
         errors.append(f'CPython cross-check disagreement in {name}: {diffs}')
     if bprop and not update_baseline and not only:
@@ -315,6 +325,7 @@ def run_property(prop, tier='quick', update_baseline=False, only=None, verbose=F
             'property_obligations': n_real,
             'refuted': len(refuted), 'undecided': len(unknown),
             'cpython_crosscheck': cross,
+            'second_solver_cvc5': second,
             'extraction_identity_checked': n_identity,
             'bounded_standins': extras.get('bounded', []),
             'lemmas': extras.get('lemmas', []),
@@ -360,9 +371,10 @@ def run_property(prop, tier='quick', update_baseline=False, only=None, verbose=F
                 else:
                     violations.append(f'VIOLATION property={prop} replay={path}')
     ev['violations'] = len(violations)
-    os.makedirs(os.path.join(VERIF, 'evidence'), exist_ok=True)
+    evdir = os.path.join(VERIF, 'evidence') if not SCRATCH else os.path.join(SCRATCH_DIR, 'evidence')
+    os.makedirs(evdir, exist_ok=True)
     if not only:
-        with open(os.path.join(VERIF, 'evidence', f'{prop}.json'), 'w') as f:
+        with open(os.path.join(evdir, f'{prop}.json'), 'w') as f:
             json.dump(ev, f, indent=1)
 
     # ---- output
@@ -383,7 +395,7 @@ def run_property(prop, tier='quick', update_baseline=False, only=None, verbose=F
     for v in violations:
         print(v)
 
-    if update_baseline and not errors and not violations and not unsupported and not undecided:
+    if update_baseline and not SCRATCH and not errors and not violations and not unsupported and not undecided:
         baseline[prop] = {'obligations': {o.name: o.verdict for o in all_obs},
                           'functions': {r.spec.name: func_hash(r) for r in results}}
         os.makedirs(os.path.dirname(BASELINE), exist_ok=True)
